@@ -21,8 +21,8 @@ ASSUMPTIONS = [
     "user-level concurrency is limited to what the documentation supports: one user thread per association plus abort() from another thread "
     "(AE.shutdown) and abort() from inside handlers; release() from a second thread is not generated",
     "refs/fsm_ref.py for the transition table",
-    "not asserted: the final FSM label of an acceptor association that is aborted/killed before its provider processed anything but the "
-    "transport-connection indication (stop_dul() sees Sta1, the provider then processes Evt5 and exits in Sta2 with the socket closed)",
+    "not asserted: the final FSM label of an association that is aborted/killed while its provider is still processing its very first event "
+    "(stop_dul() sees Sta1, the provider then finishes AE-5 / AE-1 and exits in Sta2 / Sta4); the socket must still be closed",
 ]
 SHARDS = {"quick": 1, "thorough": 16}
 
@@ -52,7 +52,7 @@ def check_lifecycle(ctx, sc):
             ev, st_ = pair.split("/")
             # one root cause: a primitive the local user queued from a stale view of the provider, processed after the
             # provider has already aborted and is awaiting the transport close (Sta13)
-            key = "local-primitive/Sta13" if (st_ == "Sta13" and ev in ("Evt7", "Evt8", "Evt9", "Evt11", "Evt14", "Evt15")) else pair
+            key = pair  # e.g. Evt9/Sta13: which stale local primitive reached the provider, and in which state
             ctx.fail("invalid-event", key, f"{t['name']} died: {msg}; scenario family {sc['family']} deviation={sc.get('deviation')}; "
                                                        f"acceptor={sc['acceptor'].get('handlers')}, shutdown_at={sc['acceptor'].get('shutdown_at')}, requestor={sc['requestors'][0].get('script') if sc['requestors'][0]['kind']=='pynetdicom' else 'raw'} abort_at={sc['requestors'][0].get('abort_at')}")
         else:
@@ -74,11 +74,19 @@ def check_lifecycle(ctx, sc):
         ctx.fail("blocked-forever" if forever else "not-finished", who, f"at quiescence (t={rep['now']}): {[(t['name'], t['state'], t['label']) for t in stuck]}; family {sc['family']} dev={sc.get('deviation')}")
         return
     for i, a in enumerate(out["acc_assocs"]):
-        a["only_ae5"] = L.transitions_of(out["_rec_acc"], i) == [("Sta1", "Evt5", "AE-5", "Sta2")]
+        a["first_only"] = L.transitions_of(out["_rec_acc"], i) == [("Sta1", "Evt5", "AE-5", "Sta2")]
+    for r in out["requestors"]:
+        if r.get("assoc") is not None:
+            r["first_only"] = L.transitions_of(r["_rec"], 0) == [("Sta1", "Evt1", "AE-1", "Sta4")]
     ends = list(out["acc_assocs"]) + [r for r in out["requestors"] if r.get("assoc") is not None]
     for a in ends:
-        if a["state"] == "Sta2" and not a["dul_alive"] and not a["alive"] and a["sock_closed"] and a.get("only_ae5"):
-            continue  # killed before the provider processed anything but the transport indication (see ASSUMPTIONS)
+        if a["state"] in ("Sta2", "Sta4") and not a["dul_alive"] and not a["alive"] and a.get("first_only"):
+            # killed while the provider was still processing its very first event (stop_dul() saw Sta1): the FSM label is
+            # not asserted (see ASSUMPTIONS), the transport must nevertheless be closed
+            if not a["sock_closed"]:
+                ctx.fail("transport-open", f"killed-during-first-action:{a['state']}", f"association killed while its provider processed its first event; socket left open; outcome={a.get('outcome')}")
+                return
+            continue
         if a["state"] != "Sta1" or a["dul_alive"] or a["alive"]:
             ctx.fail("not-idle", f"{a['state']}", f"association ended with FSM state {a['state']}, dul alive={a['dul_alive']}, assoc alive={a['alive']}, outcome={a.get('outcome')}")
             return
